@@ -361,6 +361,39 @@ def rejected_invocations(ctx, i, tmproot):
         shutil.rmtree(root, ignore_errors=True)
 
 
+GEN_ACCEPTED_SRC = (
+    'class ZqPlain(object):\n    """\n    A zq settings class without methods\n\n    :cvar size: the size\n    """\n    size: int = 3\n\n\n'
+    'def zq_doc_only(a=1):\n    """\n    A zq function that only has a docstring\n\n    :param a: the a\n    """\n\n\n'
+    'def zq_adder(a=1, b=2):\n    """\n    Adds\n\n    :param a: the a\n\n    :param b: the b\n    """\n    return a + b\n\n\n'
+    "input_map = {'ZqPlain': ZqPlain, 'zq_doc_only': zq_doc_only, 'zq_adder': zq_adder}\nwith_body = {'zq_adder': zq_adder}\n")
+
+
+def accepted_gen_combinations(ctx, tmproot):
+    """gen: every --type, with and without --emit-call, over mappings with and without body-less members."""
+    combos = [(t, ec, m) for t in ("class", "function", "argparse") for ec in (False, True) for m in ("input_map", "with_body")]
+    for ci, (type_, emit_call, mapping) in enumerate(combos):
+        if ci % ctx.shard[1] != ctx.shard[0]:
+            continue
+        root = tempfile.mkdtemp(prefix="g", dir=tmproot)
+        try:
+            modname = "zqc20acc_{}".format(ci)
+            with open(os.path.join(root, modname + ".py"), "w") as f:
+                f.write(GEN_ACCEPTED_SRC)
+            out = os.path.join(root, "generated.py")
+            argv = ["gen", "--name-tpl", "{name}Config", "--input-mapping", "{}.{}".format(modname, mapping), "--type", type_, "-o", out] + (["--emit-call"] if emit_call else [])
+            pr = subprocess.run([sys.executable, "-m", "dtverif.cli_launcher"] + argv, cwd=env.ROOT,
+                                env=env.child_env({"PYTHONPATH": os.pathsep.join([env.ROOT, env.REPO, root])}), capture_output=True, text=True, timeout=120)
+            ctx.case(("accepted_gen", type_, emit_call, mapping), nontrivial=True)
+            ctx.event("accepted_gen_combinations")
+            how, et, last = classify_failure(pr)
+            if pr.returncode != 0 and how == "traceback":
+                ctx.report({"op": "accepted_invocation", "subcommand": "gen", "type": type_, "emit_call": emit_call, "mapping_has_bodyless_members": mapping == "input_map",
+                            "field": "exit_status", "tag": "internal_exception", "exc": et, "msg": last[:160], "expected": "carried out (or a usage error)", "observed": et},
+                           {"what": "accepted_gen", "seed": ctx.seed, "tier": ctx.tier, "argv": argv})
+        finally:
+            shutil.rmtree(root, ignore_errors=True)
+
+
 def accepted_combinations(ctx, tmproot):
     """Argument combinations the parsers accept must be carried out without an internal error."""
     flag = {"argparse_function": "--argparse-function", "class": "--class", "function": "--function"}
@@ -414,6 +447,7 @@ def run(ctx):
         for j in range(ctx.n(40, 1200)):
             rejected_invocations(ctx, j * ctx.shard[1] + ctx.shard[0], tmproot)
         accepted_combinations(ctx, tmproot)
+        accepted_gen_combinations(ctx, tmproot)
     finally:
         shutil.rmtree(tmproot, ignore_errors=True)
     ctx.note("exhaustive", True)
